@@ -21,6 +21,6 @@ For each change N in 1..{n} create directory {wt}/seeded/N/ containing:
  - patch.diff : the change against HEAD, produced with `git diff HEAD -- . ':!seeded' ':!*zz_verif_contracts.go' > seeded/N/patch.diff` while only that change is applied;
  - demo_test.go : a Go test that FAILS with the change applied and PASSES without it. First line: a comment `// copy into: <package directory relative to the repo root>`; the package clause must match that directory (in-package tests may use unexported identifiers);
  - meta.json : {{"property":"{pid}","what":"one-sentence description","needs":"what specific input/condition/sequence it needs to manifest","ran":"the commands you ran and their outcome"}}.
-Work on one change at a time: apply it, run the tests, write the demo, verify the demo fails with and passes without the change (toggle with `git stash` / `git checkout -- <files>`), save the three files, then revert the source change before starting the next. At the end the worktree's tracked source files must be unmodified and only seeded/ is new.
+Work on one change at a time: apply it, run the tests, write the demo, verify the demo fails with and passes without the change (toggle with `git apply -R seeded/N/patch.diff` and `git apply seeded/N/patch.diff`; do NOT use `git stash`: the stash is shared with other worktrees of this repository), save the three files, then revert the source change before starting the next. At the end the worktree's tracked source files must be unmodified and only seeded/ is new.
 
 Final report: for each change, the function touched, a one-line description, and explicit confirmation of (b), (c), demo-fails-with, demo-passes-without.""")
